@@ -96,6 +96,22 @@ pub struct Digest<'a> {
     /// thread spawned inside an AddSub (channeled) call: reg -> tid
     pub reg_consumer: BTreeMap<usize, usize>,
     pub complete: bool,
+    /// look-up tables over the history (a run may hold tens of thousands of registrations)
+    pub idx: Index,
+}
+
+#[derive(Default)]
+pub struct Index {
+    /// sub -> its notifications (act, n, h, sel, position in the history)
+    pub logs: std::collections::HashMap<usize, Vec<(ActId, u32, u64, u8, usize)>>,
+    /// sub -> positions of its on_unsubscribe callbacks
+    pub unsub_evs: std::collections::HashMap<usize, Vec<usize>>,
+    /// sub -> number of registrations
+    pub nregs: std::collections::HashMap<usize, usize>,
+    /// reg -> unsubscribe() calls that were made (indices into calls, in call order)
+    pub unsub_calls: std::collections::HashMap<usize, Vec<usize>>,
+    /// (store, action) -> its first dispatch call
+    pub dispatch_of: std::collections::HashMap<(usize, ActId), usize>,
 }
 
 impl<'a> Digest<'a> {
@@ -172,6 +188,24 @@ impl<'a> Digest<'a> {
             }
         }
         let complete = matches!(run.out.end, simrt::End::Complete | simrt::End::Leaked);
+        let mut idx = Index::default();
+        for (i, e) in ev.iter().enumerate() {
+            match &e.k {
+                K::NotB { sub, act, n, h, sel } => idx.logs.entry(*sub).or_default().push((*act, *n, *h, *sel, i)),
+                K::Unsub { sub } => idx.unsub_evs.entry(*sub).or_default().push(i),
+                _ => {}
+            }
+        }
+        for x in regs.values() {
+            *idx.nregs.entry(x.0).or_default() += 1;
+        }
+        for (ci, c) in calls.iter().enumerate() {
+            if let OpK::Unsub { reg } = c.op {
+                if c.res != Some(Res::Skipped) {
+                    idx.unsub_calls.entry(reg).or_default().push(ci);
+                }
+            }
+        }
         let mut d = Digest {
             run,
             ev,
@@ -185,6 +219,7 @@ impl<'a> Digest<'a> {
             iter_chan,
             reg_consumer,
             complete,
+            idx,
         };
         for s in 0..prog.stores.len() {
             let mut sd = d.store_digest(s, build_chans.get(&s));
@@ -193,6 +228,13 @@ impl<'a> Digest<'a> {
                 sd.rtid = build_first_spawn.get(&s).cloned();
             }
             d.stores.push(sd);
+        }
+        for s in 0..d.stores.len() {
+            for &c in &d.stores[s].dispatches {
+                if let OpK::Dispatch { act, .. } = d.calls[c].op {
+                    d.idx.dispatch_of.entry((s, act)).or_insert(c);
+                }
+            }
         }
         d
     }
@@ -425,11 +467,16 @@ impl<'a> Digest<'a> {
     }
 
     pub fn dispatch_call_of(&self, s: usize, act: ActId) -> Option<&Call> {
+        self.idx.dispatch_of.get(&(s, act)).map(|&c| &self.calls[c])
+    }
+
+    /// per pipeline of store s: (subscribers must be told, invocation of its dispatch call, end bound)
+    pub fn inst_table(&self, s: usize) -> Vec<(bool, Option<usize>, usize)> {
         self.stores[s]
-            .dispatches
+            .insts
             .iter()
-            .map(|&c| &self.calls[c])
-            .find(|c| matches!(c.op, OpK::Dispatch { act: a, .. } if a == act))
+            .map(|inst| (self.notify_exp(inst) == NotifyExp::Must, self.dispatch_call_of(s, inst.act).map(|c| c.inv), self.inst_end_bound(s, inst)))
+            .collect()
     }
 
     pub fn has_lossy_channeled(&self, s: usize) -> bool {
